@@ -123,6 +123,14 @@ func (r *runner) check(p *Prog, origin string, toCoq bool) {
 	if v.Accepts() && or.Witness != nil {
 		w := or.Witness
 		cls, _ := w.class()
+		// the known defect classes need a halt (loop re-invalidation) resp. a halt or return (jump paths)
+		// somewhere in the program; without them the acceptance is not explained by a known defect
+		switch {
+		case cls == "second-loop-iteration" && !feat.Halt:
+			cls += "-without-halt"
+		case cls == "path-through-break-or-continue" && !feat.Halt && !feat.Return:
+			cls += "-without-halt-or-return"
+		}
 		r.fail("accepts-nonlinear:"+cls,
 			fmt.Sprintf("the real checker ACCEPTS a program with a non-linear path: variable %s %s in function %s on path [%s]\n%s",
 				w.Var, w.Kind, or.Fun, w.Trace, body),
